@@ -44,6 +44,21 @@ def represent(X, y, rng):
     return X2, y2
 
 
+def layout_exact(est):
+    """Iterative solvers that stop on a tolerance (lbfgs of LogisticRegression, the coordinate descent of NMF) may stop one
+    step earlier or later when the same values are laid out differently in memory (other BLAS paths, last-ulp
+    differences): their models then differ by far more than an ulp without anything being wrong.  The layout clause is
+    only evaluated where the fit is a finite exact-arithmetic-like computation (trees, least squares, medians, stubs)."""
+    def names(o):
+        yield type(o).__name__
+        if hasattr(o, "get_params"):
+            for v in o.get_params(deep=True).values():
+                for w in (v if isinstance(v, (list, tuple)) else [v]):
+                    if hasattr(w, "get_params"):
+                        yield type(w).__name__
+    return not ({"LogisticRegression", "ApproximateNMFPredictor", "NMF", "MLPRegressor"} & set(names(est)))
+
+
 def plain_sets(entry):
     return [(k, j) for k, alts in entry.sets for j in range(len(alts))
             if not hasattr(alts[0](), "get_params")
@@ -84,7 +99,7 @@ def scenario(hist, entry, rng, variant=0, which=None):
         lifecycle.observe_attrs(hist, obj, "RefitEqFresh", note=note)
     # the training set is its values, not how the caller holds them: a second clone trained on the same B kept in
     # Fortran order / as a strided view is the same model
-    rep = represent(XB, yB, rng)
+    rep = represent(XB, yB, rng) if layout_exact(a) else None
     if rep is not None:
         e = hist.clone(a, base)
         if e is not None:
